@@ -57,14 +57,14 @@ PKt == << <<1, 0>>, <<3, 65535>>, <<32768, 0>>, <<65535, 65535>> >>
 InitPairThorough ==
   \E p1 \in PairOpts(OptsOf({1}, Vals5)),
      p2 \in PairOpts(OptsOf({3}, {MAX})),
-     p3 \in PairOpts(OptsOf({0, 1}, Vals3) \cup OptsOf({2}, Vals2)),
+     p3 \in PairOpts(OptsOf({0, 1}, Vals3)),
      p4 \in PairOpts(OptsOf({0, 1}, Vals2) \cup OptsOf({3}, {-1})) :
     c = MkPair(PKt, <<p1, p2, p3, p4>>, OszSmall)
 \* no pre-agreed sizes at all (every item carries its length), two ids of the same type
 PKn == << <<2, 0>>, <<2, 1>>, <<16384, 3>> >>
 InitPairExplicit ==
   \E p1 \in PairOpts(OptsOf({0, 2}, Vals3)),
-     p2 \in PairOpts(OptsOf({1}, Vals5)),
+     p2 \in PairOpts(OptsOf({1}, Vals3)),
      p3 \in PairOpts(OptsOf({0, 1}, Vals3)) :
     c = MkPair(PKn, <<p1, p2, p3>>, OszNone)
 
@@ -116,7 +116,7 @@ InitSnapQuick ==
   \E a \in BoundedSeq(AddOpt(STq, SIq, SDq), 2), a2 \in BoundedSeq(AddOpt({<<5>>, U1, U3}, {0}, {<<3>>}), 2) :
     c = SnapCase(a, a2, ProbesOf(STq \cup {U3}, SIq))
 InitSnapThorough ==
-  \E a \in BoundedSeq(AddOpt(STq, SIq, SDq), 3), a2 \in BoundedSeq(AddOpt({<<5>>, U1, U2, U3}, {0}, {<<3>>}), 2) :
+  \E a \in BoundedSeq(AddOpt(STq, SIq, SDq), 3), a2 \in BoundedSeq(AddOpt({<<5>>, U1, U2, U3}, {0}, {<<3>>}), 1) :
     c = SnapCase(a, a2, ProbesOf(STq \cup {U3}, SIq))
 
 \* the user's view: the first successful add of every (type, id)
